@@ -451,7 +451,7 @@ ALLOC_EXCEPTIONS = {
 }
 
 
-def check_allocations(run, rule='R11a', only=None, floor=8):
+def check_allocations(run, rule='R11a', only=None, floor=8, symbolic=True):
     """Object-dtype-aware allocation: in a SymPy-supported function and the base functions it calls, an array allocated
     with zeros/eye/identity/empty that receives values derived from the (possibly symbolic) arguments takes its dtype
     from them (dtype=X.dtype / 'O'), or the store is in the numeric branch of a dtype test."""
@@ -541,6 +541,9 @@ def check_allocations(run, rule='R11a', only=None, floor=8):
                             ok = False
                     if ok or numeric_branch:
                         run.holds(rule, g.key, 'store into ' + name, 'float allocation only in the numeric branch of a dtype test', f=g, node=a)
+                    elif not symbolic:
+                        # the caller decides the truncation clause only (a numeric property): whether a symbolic value can be stored is C16's subject
+                        run.holds(rule, g.key, 'store into ' + name, 'float allocation: no truncation of numeric values', f=g, node=a, nontrivial=False)
                     else:
                         run.violation(rule, g.key, 'store into ' + name, 'argument-derived values (%s) are written into %s, which is '
                                       'allocated as a float array without regard to the argument dtype: a symbolic argument cannot be '
